@@ -62,6 +62,7 @@ def run(chk, ctx):
     cmod = prog.module('constants')
     fe = st_it.global_value(cmod, 'FRAME_END')
     seen_kinds = set()
+    size_seen = set()
     first = True
     for key in keys_for(ctx):
         f = F.UnmarshalFacts(ctx, key)
@@ -123,6 +124,19 @@ def run(chk, ctx):
                        '%s object returned under header type == %r' %
                        (kind, kc), detail={'specified': SPEC_KIND[kind]},
                        site=site)
+            # a complete valid frame is decoded whatever size its header
+            # announces: no cap below what the 32-bit size field can say
+            if kind in ('method', 'header', 'body') and \
+                    (kind, 'size') not in size_seen:
+                size_seen.add((kind, 'size'))
+                hi_ = kn.lin_interval(size_t)[1]
+                chk.ob('C06.N', '%s frames: accepted sizes' % kind,
+                       hi_ is None or hi_ >= (1 << 32) - 1,
+                       'no upper limit on the payload size below the field '
+                       'width' if hi_ is None or hi_ >= (1 << 32) - 1 else
+                       'frames announcing more than %d payload bytes are '
+                       'never decoded (the stream stalls there)' % hi_,
+                       site=site)
             # bounded views
             terms = r.reachable_terms(f.it) + [a for a in kn.atoms
                                                if isinstance(a, Sym)]
@@ -170,6 +184,17 @@ def run(chk, ctx):
                    'frames whose bytes match are not returned as sent' %
                    '; '.join(sorted(set(edits))[:2]), site=site)
         first = False
+    # frame k of a stream does not depend on frames 1..k-1: every mutable
+    # object in a result is created by that call (a default object shared
+    # between calls would carry values over from an earlier frame)
+    from .c16 import check_fresh
+    chk.rule('C06.F', 'the result of decoding a frame is built from objects '
+             'created in that call: nothing is carried over from the frames '
+             'decoded before')
+    f0 = F.UnmarshalFacts(ctx, None)
+    for r in f0.rets:
+        if f0.kind_of(r) in ('protocol', 'header', 'body', 'heartbeat'):
+            check_fresh(chk, f0, r, '%s result' % f0.kind_of(r), 'C06.F')
     missing = {'protocol', 'heartbeat', 'method', 'header', 'body'} - \
         seen_kinds
     chk.ob('C06.K', 'all five kinds', not missing,
